@@ -72,6 +72,13 @@ def r12_1(ctx, rep):
                     and literal(p.body) is not None and literal(p.orelse) is not None:
                 derived[a.targets[0].attr] = key
                 ok = True
+        # the statement form (which the engine also brings `self.x = A if options[k] else B` to): both branches store one literal in one attribute
+        if fn == "Generator.__init__" and isinstance(p, ast.If) and p.test is rd and len(p.body) == 1 and len(p.orelse) == 1:
+            a, b = p.body[0], p.orelse[0]
+            if isinstance(a, ast.Assign) and isinstance(b, ast.Assign) and norm(a.targets[0]) == norm(b.targets[0]) and isinstance(a.targets[0], ast.Attribute) \
+                    and is_name(a.targets[0].value, "self") and literal(a.value) is not None and literal(b.value) is not None:
+                derived[a.targets[0].attr] = key
+                ok = True
         n += 1
         rep.ob(R, GEN + ":" + fn, "read options[%r]" % key, ok,
                "a representation option may only select a constant mode stored on the generator; here it flows into `%s`" % norm(parent(rd))[:90])
@@ -122,6 +129,30 @@ def r12_1(ctx, rep):
             if isinstance(q, ast.stmt):
                 break
             p = q
+        if not in_test:
+            # the guard's value computed ahead of the loop it guards in: `flag = <test over options>` whose only uses are tests
+            st = rd
+            while parent(st) is not None and not isinstance(st, ast.stmt):
+                st = parent(st)
+            if isinstance(st, ast.Assign) and len(st.targets) == 1 and isinstance(st.targets[0], ast.Name) and isinstance(st.value, (ast.BoolOp, ast.UnaryOp, ast.Subscript, ast.Compare)):
+                host = st
+                while host is not None and not isinstance(host, ast.FunctionDef):
+                    host = parent(host)
+                uses = [x for x in ast.walk(host) if isinstance(x, ast.Name) and x.id == st.targets[0].id and isinstance(x.ctx, ast.Load)] if host is not None else []
+
+                def _in_test(x):
+                    q = x
+                    while parent(q) is not None:
+                        pq = parent(q)
+                        if isinstance(pq, (ast.If, ast.While)) and pq.test is q:
+                            return True
+                        if isinstance(pq, ast.stmt):
+                            return False
+                        q = pq
+                    return False
+
+                stores = [x for x in ast.walk(host) if isinstance(x, ast.Name) and x.id == st.targets[0].id and isinstance(x.ctx, ast.Store)] if host is not None else []
+                in_test = bool(uses) and all(_in_test(x) for x in uses) and len(stores) == 1
         n += 1
         rep.ob(R, MODEL + ":" + fn, "read options[%r] in `%s`" % (key, norm(parent(rd))[:60]), in_test and fn == "Model._simplify_once" and key == "expand_mx",
                "in model.py a representation option may only appear in a guard of _simplify_once (whose value is decided by R12.2)")
@@ -248,7 +279,11 @@ def r12_3(ctx, rep):
     checked = 0
     for n in ast.walk(gmod):
         tests = []
-        if isinstance(n, (ast.If, ast.While)):
+        if isinstance(n, ast.If) and _enclosing_fn(n) == "Generator.__init__" and len(n.body) == 1 and len(n.orelse) == 1 and all(
+                isinstance(b, ast.Assign) and isinstance(b.targets[0], ast.Attribute) and is_name(b.targets[0].value, "self") and literal(b.value) is not None
+                for b in (n.body[0], n.orelse[0])) and norm(n.body[0].targets[0]) == norm(n.orelse[0].targets[0]):
+            pass  # the choice of a constant mode (R12.1 decides what the mode may be used for)
+        elif isinstance(n, (ast.If, ast.While)):
             tests.append(n.test)
         elif isinstance(n, ast.For):
             tests.append(n.iter)
